@@ -14,6 +14,7 @@ import itertools
 import math
 import sys
 import types
+from typing import Any
 
 from hypothesis import strategies as st
 
@@ -129,7 +130,8 @@ def table_diff():
 # sequential histories. ops are JSON lists.
 
 OPS = ["new", "new_nested", "with_item", "with_items", "with_mods", "update_item", "deepcopy", "deepcopy_nested", "reset", "reset_items", "with_bad", "with_table", "transform_item",
-       "with_uncopyable", "new_uncopyable"]
+       "with_uncopyable", "new_uncopyable", "decl_attr_default", "decl_field_default"]
+MUST_SUCCEED = {"decl_attr_default", "decl_field_default"}
 
 
 class Uncopyable:
@@ -175,6 +177,20 @@ def apply(cur, op):
         return cur.reset_items()
     if name == "with_bad":
         return cur.with_n("not an int")
+    if name in MUST_SUCCEED:
+        # a class whose mutable default (declared through Attr / dataclasses.field) holds modules: declaring it, bootstrapping
+        # it and constructing an instance all copy that default
+        import dataclasses
+
+        from spec_classes import Attr, spec_class
+
+        default = [math, {"k": sys}, [op[1]]]
+        decl = Attr(default=default) if name == "decl_attr_default" else dataclasses.field(default=default)
+        D = spec_class(bootstrap=bool(op[1] % 2))(type("D", (), {"__annotations__": {"libs": Any, "n": int}, "libs": decl, "n": 0, "__module__": "vf.generated"}))
+        d = D()
+        if d.libs != default or d.libs is default:
+            raise AssertionError(f"default not copied correctly: {d.libs!r}")
+        return cur
     if name == "with_uncopyable":
         return cur.with_mods([math, [sys, Uncopyable()]])
     if name == "new_uncopyable":
@@ -231,6 +247,9 @@ def _run_seq(ctx, case):
                 outcome = "ok"
             except (TypeError, ValueError, AttributeError, KeyError, IndexError) as e:
                 nxt, outcome = cur, "raise"
+                if op[0] in MUST_SUCCEED:
+                    ctx.fail(f"seq|{op[0]}|raises:{type(e).__name__}", case, f"op {i} {op}: declaring / constructing a class whose default holds modules raised {e!r}")
+                    return
         extra, missing = table_diff()
         if extra or missing:
             ctx.fail(f"seq|{op[0]}|{outcome}|table_{'leak' if extra else 'lost'}", case, f"after op {i} {op} ({outcome}): dispatch_table has extra {extra} / lost {missing}")
